@@ -347,7 +347,7 @@ def _init_seed_table(ds_tree) -> dict[str, bool]:
     return t
 
 
-def _select_table(init: ast.FunctionDef, pattern: str, root_name: str, has_regex: bool) -> tuple[dict[str, bool], bool]:
+def _select_table(init: ast.FunctionDef, pattern: str, root_name: str, has_regex: bool) -> tuple[dict[str, bool], bool, bool]:
     """structure of the file selection at the top of `__init__`; also returns whether the directory listing is sorted"""
     t: dict[str, bool] = {}
     top = next((s for s in init.body if isinstance(s, ast.If) and _txt(s.test) == "filenames_filterisNone"), None)
@@ -370,14 +370,17 @@ def _select_table(init: ast.FunctionDef, pattern: str, root_name: str, has_regex
     t["listing_is_glob_of_root"] = len(lst) == 1 and lst[0] in (f"list({glob})", f"sorted({glob})", f"list(sorted({glob}))")
     is_sorted = len(lst) == 1 and "sorted(" in lst[0]
     after = init.body[init.body.index(top) + 1:]
-    t["paths_made_pathlib"] = any(_txt(x) == "filenames=[pathlib.Path(_)for_infilenames]" for x in after)
+    plain = any(_txt(x) == "filenames=[pathlib.Path(_)for_infilenames]" for x in after)
+    dedup = any(_txt(x) in ("filenames=list(dict.fromkeys((pathlib.Path(_)for_infilenames)))",
+                            "filenames=list(dict.fromkeys(pathlib.Path(_)for_infilenames))") for x in after)
+    t["paths_made_pathlib"] = plain != dedup
     if has_regex:
         rx = next((x for x in after if isinstance(x, ast.If) and _txt(x.test) == "regex_filter"), None)
         t["regex_match_on_str_of_path"] = rx is not None and [_txt(x) for x in rx.body] == [
             "filenames=[_for_infilenamesifre.match(regex_filter,str(_))]"]
     else:
         t["no_regex_parameter"] = "regex_filter" not in [a.arg for a in init.args.args]
-    return t, is_sorted
+    return t, is_sorted, dedup
 
 
 def _kwargs_of_super_init(init: ast.FunctionDef) -> dict[str, str]:
@@ -489,13 +492,15 @@ def _c12_extra():
     out.append("/-- construction-time seeding of FakeMRIBlobsDataset / SheppLoganDataset -/\n" + _emit_list("initSeedTable", it))
     sel = table("selectTable", lambda: _select_table(find_function(h5, "H5SliceData.__init__"), "*.h5", "root", True), None)
     csel = table("cmrSelectTable", lambda: _select_table(find_function(ds, "CMRxReconDataset.__init__"), "*.mat", "data_root", False), None)
-    for nm, res, const in (("selectTable", sel, "listingSorted"), ("cmrSelectTable", csel, "cmrListingSorted")):
+    for nm, res, const, dconst in (("selectTable", sel, "listingSorted", "dedupNames"),
+                                   ("cmrSelectTable", csel, "cmrListingSorted", "cmrDedupNames")):
         if res is None:
             out.append(f"/-- SKIPPED -/\ndef {nm} : List (String × Bool) := [(\"skipped\", true)]\n"
-                       f"def {const} : Bool := Dataset.listingSortedCurrent\n")
+                       f"def {const} : Bool := Dataset.listingSortedCurrent\ndef {dconst} : Bool := Dataset.dedupCurrent\n")
         else:
             out.append(f"/-- file selection in `__init__` -/\n" + _emit_list(nm, res[0]) +
-                       f"/-- is the directory listing sorted before use? -/\ndef {const} : Bool := {_lean_bool(res[1])}\n")
+                       f"/-- is the directory listing sorted before use? -/\ndef {const} : Bool := {_lean_bool(res[1])}\n"
+                       f"/-- are repeated names dropped (first kept) before parsing? -/\ndef {dconst} : Bool := {_lean_bool(res[2])}\n")
     cls = table("classTable", lambda: _class_table(h5, ds), None)
     if cls is None:
         out.append("/-- SKIPPED -/\ndef classTable : List (String × Bool) := [(\"skipped\", true)]\n"
